@@ -30,7 +30,7 @@ def gen_scenarios(rng, n, focus):
                ["ws_and_liar"] * 2 + ["stopstart"] * 3 + ["partial_liars"] * 2 + ["honest"]
     else:
         fams = ["honest"] * 3 + ["ws_only"] * 3 + ["ws_and_peer"] * 2 + ["split_have"] * 2 + ["dropping"] * 2 + ["ignoring"] * 2 + \
-               ["listen"] * 1 + ["liar_and_honest"] * 2
+               ["listen"] * 1 + ["liar_and_honest"] * 2 + ["choke_inflight"] * 3 + ["ws_and_staller"] * 2
     k = 0
     while len(out) < n:
         fam = fams[k % len(fams)]
@@ -73,6 +73,12 @@ def gen_scenarios(rng, n, focus):
             add(layout=lay, seq=seq, honest=True,
                 peers=[{"name": "e", "ip": "127.0.0.2", "policy": "honest", "have": "evens"},
                        {"name": "o", "ip": "127.0.0.3", "policy": "honest", "have": "odds", "joinAfterMs": rng.choice([0, 30])}])
+        elif fam == "choke_inflight":   # the only source chokes with requests in flight, delivers them anyway, unchokes again
+            add(layout=lay, seq=seq, honest=True,
+                peers=[dict(honest, policy="chokedeliver", k=rng.randint(1, 4), noFast=rng.random() < 0.7)])
+        elif fam == "ws_and_staller":   # honest web seed + a peer that accepts requests and never sends data
+            add(layout=lay, seq=seq, honest=True, webseeds=[{"policy": "honest"}],
+                peers=[{"name": "stall", "ip": "127.0.0.2", "policy": "stall", "k": 1, "have": "all", "noFast": rng.random() < 0.5}])
         elif fam == "ws_only":
             add(layout=lay, seq=seq, honest=True, webseeds=[{"policy": rng.choice(["honest", "honest", "slow"])}])
         elif fam == "ws_and_peer":
